@@ -305,7 +305,7 @@ class C10Check:
     property_id = "C10"
     name = "c10-run-sim"
     level = "exploration"
-    rule = ("each run = one scenario (symbolic counted loop in a regular test / inside a nested call / in setUp, concrete loop longer "
+    rule = ("(stuck scenarios: the feasibility query of the stuck path is answered truthfully / unknown / crash / garbage / error line; invariant scenarios: once, twice in one process, two contracts) each run = one scenario (symbolic counted loop in a regular test / inside a nested call / in setUp, concrete loop longer "
             "than --loop, 2^k paths under --width, straight-line prefix under --depth with histories {once, twice in one process, "
             "same signature in two contracts, two tests of one contract}, unsupported opcode or symbolic memory offset at top level "
             "or inside a nested call) with parameters --loop 1-4, mask 3/7/15, K, width, depth drawn by seed; run_contract runs under "
